@@ -2,11 +2,13 @@
 
 mod cs;
 mod fmt06;
+mod history;
 mod icept;
 mod oracle;
 mod props;
 mod report;
 mod rng;
+mod scenario;
 mod scratch;
 mod tree;
 
